@@ -14,12 +14,14 @@ CONSTANTS
   Rates = {0, 1500}
   MaxBase = 2
   MaxEv = 2
+  Terms = 1
   Record = FALSE
 VIEW ViewNoHist
 INVARIANT PRepBudget
 INVARIANT WageBudget
 INVARIANT VoterBudget
 INVARIANT TotalBudget
+INVARIANT CumulativeBudget
 INVARIANT Proportional
 INVARIANT AccumulatedIsBlockSum
 INVARIANT NonNegative
